@@ -514,6 +514,35 @@ impl Runner
                 self.user_op_happened();
                 None
             },
+            Op::Move{ from, to } =>
+            {
+                self.world.user_rename(&from, &to);
+                self.user_op_happened();
+                None
+            },
+            Op::DamageState{ table, pick, keep } =>
+            {
+                let path = if table { Some(table_path()) } else
+                {
+                    let files = self.world.snapshot().0.files_under(&history_dir());
+                    if files.len() > 0 { Some(files[pick as usize % files.len()].0.clone()) } else { None }
+                };
+                if let Some(path) = path
+                {
+                    if let Some(old) = self.world.read(&path)
+                    {
+                        let new : Vec<u8> = match keep
+                        {
+                            Some(n) => old[..std::cmp::min(n as usize, old.len().saturating_sub(1))].to_vec(),
+                            None => b"\xff\xff\xff\xff\xff\xff\xff\xffgarbage".to_vec(),
+                        };
+                        self.world.user_put_raw(&path, &new);
+                    }
+                }
+                self.record.clear();
+                self.user_op_happened();
+                None
+            },
             Op::Build{ goal, sched } => Some(self.invocation(i, true, goal, sched)),
             Op::Clean{ goal, sched } => Some(self.invocation(i, false, goal, sched)),
         }
@@ -695,7 +724,18 @@ pub fn oracle_c04(inv : &Inv, failed_last : &[Identity]) -> Vec<Violation>
     let predicted = inv.predicted_errors().unwrap();
     match inv.actual_errors()
     {
-        None => return out,   // panic / abort / non-work error: C05's business
+        None =>
+        {
+            // the statement: "the build reports failure with exactly one error per failed rule or
+            // missing file".  A build with predicted failures that panics, hangs or returns some
+            // other error has not reported them.  (With no predicted failure it is C05's business.)
+            if predicted.len() > 0 && !inv.res.verdict.short().starts_with("Error(FailedToRead") && !inv.res.verdict.short().starts_with("Error(HistoryError")
+            {
+                out.push(vio("C04", format!("C04:failures-not-reported:{}", sig_of_verdict(&inv.res.verdict)),
+                    format!("op {}: reference predicts {:?}; the build ended with {}", inv.op_index, predicted, inv.res.verdict.short())));
+            }
+            return out;
+        },
         Some(actual) =>
         {
             if actual != predicted
